@@ -9,6 +9,7 @@ pub open spec fn evals(regs: Seq<FnUpdate>, vv: spec_fn(VariableId) -> bool, pi:
 pub open spec fn grows(a: &BooleanNetwork, b: &BooleanNetwork) -> bool {
     &&& forall|nm: Seq<char>| #[trigger] ptab(a).contains_key(nm) ==> ptab(b).contains_key(nm) && ptab(b)[nm] == ptab(a)[nm]
     &&& forall|nm: Seq<char>| #[trigger] ptab(a).contains_key(nm) ==> pname(b, ptab(a)[nm]) == nm
+    &&& same_vars(a, b)
 }
 pub open spec fn all_flat(regs: Seq<FnUpdate>) -> bool { forall|i: int| 0 <= i < regs.len() ==> is_flat(#[trigger] regs[i]) }
 // the expansion of f(regs) with name prefix `pre`: every valuation string has its own constant, and the result evaluates to the
@@ -339,6 +340,24 @@ pub proof fn lemma_instantiations_are_constants(f: FnUpdate, vv: spec_fn(Variabl
         },
         FnUpdate::Not(g) => { lemma_instantiations_are_constants(*g, vv, pi, n0, n); },
         FnUpdate::Binary(_, l, r) => { lemma_instantiations_are_constants(*l, vv, pi, n0, n); lemma_instantiations_are_constants(*r, vv, pi, n0, n); },
+        _ => {},
+    }
+}
+pub open spec fn var_terms(regs: Seq<VariableId>) -> Seq<FnUpdate> { Seq::new(regs.len(), |i: int| FnUpdate::Var(regs[i])) }
+pub proof fn lemma_fflat_same_tab(f: FnUpdate, vv: spec_fn(VariableId) -> bool, pi: spec_fn(ParameterId, Seq<bool>) -> bool, n0: &BooleanNetwork, n1: &BooleanNetwork, n2: &BooleanNetwork)
+    requires ptab(n1) == ptab(n2)
+    ensures fflat(f, vv, pi, n0, n1) == fflat(f, vv, pi, n0, n2)
+    decreases f
+{
+    match f {
+        FnUpdate::Param(id, args) => {
+            lemma_fflat_param(id, args, vv, pi, n0, n1);
+            lemma_fflat_param(id, args, vv, pi, n0, n2);
+            assert forall|i: int| 0 <= i < args@.len() implies fflat(args@[i], vv, pi, n0, n1) == fflat(args@[i], vv, pi, n0, n2) by { lemma_fflat_same_tab(args@[i], vv, pi, n0, n1, n2); }
+            assert(flat_args(args@, vv, pi, n0, n1) =~= flat_args(args@, vv, pi, n0, n2));
+        },
+        FnUpdate::Not(g) => { lemma_fflat_same_tab(*g, vv, pi, n0, n1, n2); },
+        FnUpdate::Binary(_, l, r) => { lemma_fflat_same_tab(*l, vv, pi, n0, n1, n2); lemma_fflat_same_tab(*r, vv, pi, n0, n1, n2); },
         _ => {},
     }
 }
